@@ -156,6 +156,17 @@ class AccessMixin:
         if isinstance(node.slice, ast.Slice):
             return self.ev_slice(base, node.slice, fr, node)
         idx = self.ev(node.slice, fr)
+        if tn == "zarray":
+            # ghost z3 array (spec only): domain Int or Val, range Int / Val / Bool
+            arr = base.term
+            key = IV(idx.term) if arr.sort().domain() == INT else self.need_term(idx)
+            v = z3.Select(arr, key)
+            rs = arr.sort().range()
+            if rs == INT:
+                return SV(mk_int(v), Ty("int"))
+            if rs == z3.BoolSort():
+                return SV(mk_bool(v), Ty("bool"))
+            return SV(v, base.ty.elt())
         if base.meta and base.meta[0] == "tuple" and isinstance(node.slice, ast.Constant):
             return base.meta[1][node.slice.value]
         if tn in ("list", "tuple"):
